@@ -280,6 +280,8 @@ func runC18(c *Ctx, r *Report) {
 			r.Undecided("R-C18.3", r.Key("R-C18.3", create, "presign-reaches", target), create.Body.Pos(), "no call to "+target+" in CreateEntryWithIO")
 		}
 	}
+	r.Doc("R-C18.5", "entries written with a link key verify: every field the pre-sign transformation reads is final when PreSign runs at creation")
+	preSignInputsFinal(c, r, "R-C18.5")
 	// PreSign early-outs
 	linkKeyF := p.Field("io/cbor", "IOCbor", "linkKey")
 	entryParam := paramObj(ps, 0)
